@@ -1,6 +1,16 @@
 package rules
 
-import "verifchk/core"
+import (
+	"encoding/json"
+	"fmt"
+	"os"
+	"os/exec"
+	"path/filepath"
+	"sort"
+	"strings"
+
+	"verifchk/core"
+)
 
 type Rule func(p *core.Prog, r *core.Report)
 
@@ -14,5 +24,191 @@ type PropSpec struct {
 
 var Properties = map[string]PropSpec{}
 
-// Thorough runs the extra, slower parts of the thorough tier (filled in later).
-func Thorough(id, repo, verif string, r *core.Report) {}
+// Control is a positive control: a small textual edit of one file, applied in memory only, that must make
+// the named rule report a violation. Controls prove on every run that a rule is able to fire (a rule that
+// matches nothing passes vacuously otherwise). A control whose anchor text no longer exists is skipped
+// with a note: it proves nothing, and the instance floors still guard against blindness.
+type Control struct {
+	ID       string `json:"id"`
+	Property string `json:"property"`
+	File     string `json:"file"`
+	Old      string `json:"old"`
+	New      string `json:"new"`
+	Expect   string `json:"expect"` // prefix of the obligation key that must turn red
+	Quick    bool   `json:"quick"`
+}
+
+func violatedKeys(obls []core.Obligation) map[string]bool {
+	m := map[string]bool{}
+	for _, o := range obls {
+		if o.Status != core.Discharged {
+			m[o.Key] = true
+		}
+	}
+	return m
+}
+
+// Controls runs the positive controls registered for the property (quick tier: those flagged quick).
+func Controls(id, repo, verif, tier string, r *core.Report) {
+	b, err := os.ReadFile(filepath.Join(verif, "tables", "controls.json"))
+	if err != nil {
+		return
+	}
+	var all []Control
+	if err := json.Unmarshal(b, &all); err != nil {
+		r.Unk("CONTROL", "table", "-", "tables/controls.json does not parse: "+err.Error())
+		return
+	}
+	spec := Properties[id]
+	base := violatedKeys(r.Obls)
+	var fired, skipped []string
+	for _, c := range all {
+		if c.Property != id || (tier == "quick" && !c.Quick) {
+			continue
+		}
+		path := filepath.Join(repo, c.File)
+		src, err := os.ReadFile(path)
+		if err != nil || strings.Count(string(src), c.Old) != 1 {
+			skipped = append(skipped, c.ID+" (anchor text not found exactly once)")
+			continue
+		}
+		mod := strings.Replace(string(src), c.Old, c.New, 1)
+		p, err := core.LoadOverlay(repo, "", map[string][]byte{path: []byte(mod)})
+		if err != nil {
+			skipped = append(skipped, c.ID+" (edited program does not type-check: "+firstLine(err.Error())+")")
+			continue
+		}
+		sub := core.NewReport()
+		func() {
+			defer func() { recover() }()
+			for _, rl := range spec.Rules {
+				rl(p, sub)
+			}
+		}()
+		hit := ""
+		for k := range violatedKeys(sub.Obls) {
+			if strings.HasPrefix(k, c.Expect) && !base[k] {
+				hit = k
+			}
+		}
+		if hit != "" {
+			fired = append(fired, c.ID+" -> "+hit)
+			r.OK("CONTROL", c.ID, c.File, "positive control fired: "+hit)
+		} else {
+			r.Unk("CONTROL", c.ID, c.File, "positive control did not fire: the edit '"+c.ID+"' breaks the property but no obligation with prefix "+c.Expect+" turned red — the rule has gone blind")
+		}
+	}
+	r.Info["positive_controls_fired"] = fired
+	if len(skipped) > 0 {
+		r.Info["positive_controls_skipped"] = skipped
+	}
+}
+
+func firstLine(s string) string {
+	if i := strings.IndexByte(s, '\n'); i >= 0 {
+		return s[:i]
+	}
+	return s
+}
+
+// Thorough runs the slower parts of the thorough tier: mutant witnesses (each in its own process, on a
+// scratch copy outside /repo and /verif that is removed at once) and the cross-reference tools, whose
+// output is recorded and never decides.
+func Thorough(id, repo, verif string, r *core.Report) {
+	type wit struct {
+		Patch string   `json:"patch"`
+		Props []string `json:"caught_by"`
+	}
+	var wits []wit
+	if b, err := os.ReadFile(filepath.Join(verif, "tables", "witnesses.json")); err == nil {
+		json.Unmarshal(b, &wits)
+	}
+	self, _ := os.Executable()
+	base := violatedKeys(r.Obls)
+	var caught, missed, inapplicable []string
+	sem := make(chan struct{}, 8)
+	type res struct {
+		name string
+		st   string
+	}
+	out := make(chan res, len(wits))
+	n := 0
+	for _, w := range wits {
+		mine := false
+		for _, pid := range w.Props {
+			if pid == id {
+				mine = true
+			}
+		}
+		if !mine {
+			continue
+		}
+		n++
+		go func(w wit) {
+			sem <- struct{}{}
+			defer func() { <-sem }()
+			scr, err := os.MkdirTemp("", "vchk-witness-")
+			if err != nil {
+				out <- res{w.Patch, "inapplicable"}
+				return
+			}
+			defer os.RemoveAll(scr)
+			sh := fmt.Sprintf("cd %q && git archive HEAD | tar -x -C %q && (git diff HEAD | (cd %q && patch -p1 -s >/dev/null 2>&1 || true)) && cd %q && patch -p1 -s -f < %q", repo, scr, scr, scr, filepath.Join(verif, w.Patch))
+			if err := exec.Command("bash", "-c", sh).Run(); err != nil {
+				out <- res{w.Patch, "inapplicable"}
+				return
+			}
+			o, err := exec.Command(self, "-repo", scr, "-verif", verif, "-keys", id).Output()
+			if err != nil {
+				out <- res{w.Patch, "inapplicable"}
+				return
+			}
+			var ks []string
+			lines := strings.Split(strings.TrimSpace(string(o)), "\n")
+			json.Unmarshal([]byte(lines[len(lines)-1]), &ks)
+			for _, k := range ks {
+				if !base[k] {
+					out <- res{w.Patch, "caught: " + k}
+					return
+				}
+			}
+			out <- res{w.Patch, "missed"}
+		}(w)
+	}
+	for i := 0; i < n; i++ {
+		x := <-out
+		switch {
+		case strings.HasPrefix(x.st, "caught"):
+			caught = append(caught, x.name+" — "+strings.TrimPrefix(x.st, "caught: "))
+		case x.st == "missed":
+			missed = append(missed, x.name)
+			fmt.Printf("WITNESS-MISSED property=%s %s (a seeded change this check used to catch is no longer reported)\n", id, x.name)
+		default:
+			inapplicable = append(inapplicable, x.name)
+		}
+	}
+	sort.Strings(caught)
+	sort.Strings(missed)
+	sort.Strings(inapplicable)
+	r.Info["witnesses_caught"] = caught
+	r.Info["witnesses_missed"] = missed
+	r.Info["witnesses_inapplicable"] = inapplicable
+	r.Count("witnesses_run", n)
+	// cross-reference tools: recorded, never deciding
+	xr := map[string]any{}
+	for _, t := range [][]string{{"go", "vet", "./..."}, {"staticcheck", "./..."}, {"errcheck", "./..."}} {
+		cmd := exec.Command(t[0], t[1:]...)
+		cmd.Dir = repo
+		cmd.Env = append(os.Environ(), "GOFLAGS=-mod=mod", "GOPROXY=off", "GOSUMDB=off", "GOTOOLCHAIN=local")
+		o, _ := cmd.CombinedOutput()
+		lines := strings.Split(strings.TrimSpace(string(o)), "\n")
+		if len(lines) == 1 && lines[0] == "" {
+			lines = nil
+		}
+		if len(lines) > 8 {
+			lines = append(lines[:8], fmt.Sprintf("... %d more", len(lines)-8))
+		}
+		xr[strings.Join(t, " ")] = map[string]any{"reports": len(lines), "first": lines}
+	}
+	r.Info["cross_reference_never_deciding"] = xr
+}
